@@ -30,6 +30,11 @@ import (
 
 const findingHedgeAfterSuccess = "c34-hedge-after-success"
 
+// c34EnforceD5 switches rule D5 (and its machine-level twin) on. If the coordinator rejects finding
+// c34-hedge-after-success as demanding more than the statement, set this to false and drop the
+// entry from known_findings.json; nothing else depends on it.
+const c34EnforceD5 = true
+
 // mustStop returns the rule that forbids Retry for this input, or "".
 func mustStop(cfg relaypolicy.PolicyConfig, in relaycore.DecisionInput, withD5 bool) string {
 	switch {
@@ -71,7 +76,7 @@ func archiveVariants() []*relaycore.ArchiveStatus {
 // TestC34Decide enumerates the whole (bounded) input space of Policy.Decide.
 func TestC34Decide(t *testing.T) {
 	col := ev.For("C34")
-	withD5 := !ev.Excluded(findingHedgeAfterSuccess)
+	withD5 := c34EnforceD5 && !ev.Excluded(findingHedgeAfterSuccess)
 	hashErr := errors.New("hash failed")
 	archs := archiveVariants()
 	bools := []bool{false, true}
@@ -241,7 +246,7 @@ func TestC34Known_hedge_after_success(t *testing.T) {
 		Summary:       relaycore.ResultsSummary{SuccessCount: 1},
 	}
 	out := relaypolicy.NewPolicy(cfg).Decide(in)
-	if out.Action == relaycore.ActionRetry {
+	if c34EnforceD5 && out.Action == relaycore.ActionRetry {
 		t.Fatalf("%s", ev.Violation("C34", "Policy.Decide asks for a new attempt (reason %q) although a successful result is already recorded (D5): %s", out.Reason, showInput(cfg, in)))
 	}
 }
